@@ -110,7 +110,7 @@ def one(ctx: Ctx, spec, dtype):
 def main(ctx: Ctx):
     ctx.lean_gate()
     cat = catalogue()
-    n = 12 if ctx.tier == "quick" else 400
+    n = 12 if ctx.tier == "quick" else 3000
     for i in range(n):
         for spec in cat:
             if spec.solver and i % 3:
